@@ -34,6 +34,9 @@ type parseCase struct {
 	Canon []int           `json:"canon"`
 }
 
+// values of the previously accepted case, per version (used to edit a parsed object before re-parsing)
+var lastAccepted = map[string]map[string]string{}
+
 type heldErr struct {
 	err   error
 	first ErrK
@@ -48,6 +51,11 @@ func runParseCases(prop, file, out string) {
 	var heldMu sync.Mutex
 	var held []heldErr
 	nw := runtime.GOMAXPROCS(0)
+	if prop == "C01" || prop == "C13" || prop == "C06" || prop == "C08" || prop == "C14" {
+		// these properties are also probed with calls made IMMEDIATELY AFTER an accepted parse (header
+		// swap, edit-then-reparse): one worker, so that "immediately after" means what it says
+		nw = 1
+	}
 	for w := 0; w < nw; w++ {
 		wg.Add(1)
 		go func() {
@@ -110,7 +118,7 @@ func checkParseCase(prop string, c *parseCase, col0 *collector, held *[]heldErr)
 	}
 	results := map[string]res{}
 	targets := verOrder
-	if prop == "C06" || prop == "C08" || prop == "C18" {
+	if prop == "C06" || prop == "C08" || prop == "C18" || prop == "C14" {
 		targets = []string{c.Ver}
 	}
 	for _, vn := range targets {
@@ -122,8 +130,73 @@ func checkParseCase(prop string, c *parseCase, col0 *collector, held *[]heldErr)
 		}
 		results[vn] = r
 	}
+	headers := map[string]string{"2.0": "", "3.0": "CVSS:3.0/", "3.1": "CVSS:3.1/", "4.0": "CVSS:4.0"}
+	// header of version vn replaced by the header of every other version: never well formed for vn
+	swapped := func(vn string) []string {
+		var r []string
+		if len(s) < len(headers[vn]) || s[:len(headers[vn])] != headers[vn] {
+			return r
+		}
+		body := s[len(headers[vn]):]
+		for _, w := range verOrder {
+			if w != vn && headers[w] != headers[vn] {
+				r = append(r, headers[w]+body)
+			}
+		}
+		return r
+	}
+	// edit the object a parse returned (make it hold the values of another object), then parse the same
+	// string again: the second result must be what the string says, whatever was done to the first
+	reparseAfterEdit := func(vn string, o Obj, want map[string]string) (Obj, bool) {
+		last := lastAccepted[vn]
+		lastAccepted[vn] = want
+		if last == nil || o == nil {
+			return nil, false
+		}
+		for m, x := range last {
+			o.Set(m, x)
+		}
+		var o2 Obj
+		var err error
+		if p, _ := safely(func() { o2, err = versions[vn].Parse(s) }); p || err != nil || o2 == nil {
+			return nil, true
+		}
+		return o2, true
+	}
 	switch prop {
+	case "C14":
+		// same argument, same result: accept/reject, error value and object, on repeated calls
+		v := versions[c.Ver]
+		first := results[c.Ver]
+		for rep := 0; rep < 3; rep++ {
+			var o2 Obj
+			var e2 error
+			p2, _ := safely(func() { o2, e2 = v.Parse(s) })
+			col.count("repeated calls compared with the first", 1)
+			same := (p2 == (first.pan != "")) && v.ErrKind(e2) == v.ErrKind(first.err) && (o2 == nil) == (first.obj == nil)
+			if same && o2 != nil {
+				same = o2.Same(first.obj)
+			}
+			if !same {
+				col.violate(Violation{Property: prop, Kind: "the same call returns different results when repeated", Version: c.Ver, Input: inputRec(b),
+					Expected: map[string]interface{}{"error": v.ErrKind(first.err)}, Observed: map[string]interface{}{"error": v.ErrKind(e2)}})
+				break
+			}
+		}
 	case "C01":
+		for _, vn := range targets {
+			if r := results[vn]; r.pan == "" && r.err == nil && c.WF[vn] {
+				for _, s2 := range swapped(vn) {
+					var e2 error
+					p2, _ := safely(func() { _, e2 = versions[vn].Parse(s2) })
+					col.count("header-swapped string right after an accepted parse", 1)
+					if p2 || e2 == nil {
+						col.violate(Violation{Property: prop, Kind: "accept/reject differs from the grammar", Version: vn, Input: inputRec([]byte(s2)),
+							Expected: map[string]interface{}{"well_formed": false}, Observed: map[string]interface{}{"accepted": e2 == nil, "after_parsing": s}})
+					}
+				}
+			}
+		}
 		for _, vn := range targets {
 			r := results[vn]
 			col.count("parser verdicts", 1)
@@ -146,6 +219,19 @@ func checkParseCase(prop string, c *parseCase, col0 *collector, held *[]heldErr)
 			}
 		}
 	case "C13":
+		for _, vn := range targets {
+			if r := results[vn]; r.pan == "" && r.err == nil {
+				for _, s2 := range swapped(vn) {
+					var e2 error
+					p2, _ := safely(func() { _, e2 = versions[vn].Parse(s2) })
+					col.count("header-swapped string right after an accepted parse", 1)
+					if !p2 && e2 == nil {
+						col.violate(Violation{Property: prop, Kind: "string with another version's header accepted", Version: vn, Input: inputRec([]byte(s2)),
+							Expected: "rejected", Observed: map[string]interface{}{"accepted": true, "after_parsing": s}})
+					}
+				}
+			}
+		}
 		var accs []string
 		for _, vn := range targets {
 			if r := results[vn]; r.pan == "" && r.err == nil {
@@ -197,15 +283,21 @@ func checkParseCase(prop string, c *parseCase, col0 *collector, held *[]heldErr)
 			keys = append(keys, m)
 		}
 		sort.Strings(keys)
-		for _, m := range keys {
-			var got string
-			var e error
-			p, msg := safely(func() { got, e = r.obj.Get(m) })
-			col.count("Get compared with the written value", 1)
-			if p || e != nil || got != want[m] {
-				col.violate(Violation{Property: prop, Kind: "Get after ParseVector differs from the vector text", Version: c.Ver, Input: inputRec(b),
-					Expected: map[string]string{m: want[m]}, Observed: map[string]interface{}{"value": got, "error": versions[c.Ver].ErrKind(e), "panic": msg}})
+		compare := func(o Obj, kind string) {
+			for _, m := range keys {
+				var got string
+				var e error
+				p, msg := safely(func() { got, e = o.Get(m) })
+				col.count("Get compared with the written value", 1)
+				if p || e != nil || got != want[m] {
+					col.violate(Violation{Property: prop, Kind: kind, Version: c.Ver, Input: inputRec(b),
+						Expected: map[string]string{m: want[m]}, Observed: map[string]interface{}{"value": got, "error": versions[c.Ver].ErrKind(e), "panic": msg}})
+				}
 			}
+		}
+		compare(r.obj, "Get after ParseVector differs from the vector text")
+		if o2, ok := reparseAfterEdit(c.Ver, r.obj, want); ok && o2 != nil {
+			compare(o2, "Get after ParseVector differs from the vector text (parsed again after the first result was edited)")
 		}
 	case "C08":
 		if !c.WF[c.Ver] {
@@ -236,6 +328,19 @@ func checkParseCase(prop string, c *parseCase, col0 *collector, held *[]heldErr)
 		safely(func() { got2 = o2.Vector() })
 		if got2 != want {
 			col.violate(Violation{Property: prop, Kind: "parse-then-serialise twice differs from once", Version: c.Ver, Input: inputRec(b), Expected: want, Observed: got2})
+		}
+		if c.Obj != nil {
+			var wantObj map[string]string
+			if json.Unmarshal(c.Obj, &wantObj) == nil {
+				if o3, ok := reparseAfterEdit(c.Ver, r.obj, wantObj); ok && o3 != nil {
+					var got3 string
+					safely(func() { got3 = o3.Vector() })
+					col.count("canonical strings compared after edit-then-reparse", 1)
+					if got3 != want {
+						col.violate(Violation{Property: prop, Kind: "parse-then-serialise is not the canonical form (parsed again after the first result was edited)", Version: c.Ver, Input: inputRec(b), Expected: want, Observed: got3})
+					}
+				}
+			}
 		}
 		if kept != want { // the first string must not have been rewritten by the later calls
 			col.violate(Violation{Property: prop, Kind: "canonical string changed after later calls", Version: c.Ver, Input: inputRec(b), Expected: want, Observed: kept})
